@@ -77,4 +77,20 @@ CHECKS = {
              "thorough": {"checks": 4000, "shards": 4, "timeout": "60m"}},
         ],
     },
+    "C15": {
+        "level": "exploration",
+        "assumptions": EXPLORATION_ASSUMPTIONS + ["sharing is detected both by value (a scribbling handler's edits visible to another) and by pointer identity of the *Line, the Args backing array and the Tags map; the originals are kept reachable so addresses cannot be recycled"],
+        "legs": [
+            {"test": "TestC15", "quick": {"checks": 2000, "timeout": "15m"},
+             "thorough": {"checks": 30000, "shards": 8, "timeout": "60m"}},
+        ],
+    },
+    "C16": {
+        "level": "exploration",
+        "assumptions": EXPLORATION_ASSUMPTIONS + ["panic(nil) reaches recover() as *runtime.PanicNilError because the test binary's main module is go 1.23"],
+        "legs": [
+            {"test": "TestC16", "quick": {"checks": 400, "timeout": "15m"},
+             "thorough": {"checks": 5000, "shards": 4, "timeout": "60m"}},
+        ],
+    },
 }
